@@ -848,3 +848,118 @@ func ruleAbsolutePositioningRestarts(c *Ctx, id string) {
 		}
 	})
 }
+
+// ---------------------------------------------------------------------------------------------
+// C09.R12 / C10.R10 / C02.R14  one-registration-removed
+//
+// readonlyTXIDs is a MULTISET: every read transaction registers meta.Txid(), and any number of readers opened
+// between two commits share one id. RemoveReadonlyTXID must remove exactly one registration. A routine that filters
+// every equal element (slices.DeleteFunc, a loop without break) un-registers all readers of that version at once; the
+// next writer then recycles pages an open reader still uses (seed C09d).
+func ruleOneRegistrationRemoved(c *Ctx, id string) {
+	c.rule(id, "one-registration-removed", 1, func() {
+		fn := c.fn("freelist.(*shared).RemoveReadonlyTXID")
+		listF := c.P.lookupField(freelistPath, "shared", "readonlyTXIDs")
+		if listF == nil {
+			panic(anchorErr{"shared.readonlyTXIDs"})
+		}
+		var stores []fieldStore
+		for _, f := range withAnons(fn) {
+			stores = append(stores, storesToField([]*ssa.Function{f}, listF)...)
+		}
+		bad := ""
+		if len(stores) == 0 {
+			bad = "the reader list is never shortened"
+		}
+		for _, st := range stores {
+			switch v := st.Val.(type) {
+			case *ssa.Slice:
+			case *ssa.Call:
+				b := calleeOf(v).Builtin
+				n := calleeOf(v).Name()
+				okDel := false
+				if calleeOf(v).Static != nil && fnPkg(calleeOf(v).Static) != nil && fnPkg(calleeOf(v).Static).Path() == "slices" && strings.HasPrefix(calleeOf(v).Static.Name(), "Delete[") && len(v.Call.Args) == 3 {
+					// slices.Delete(s, i, i+1)
+					if bo, ok := v.Call.Args[2].(*ssa.BinOp); ok && bo.Op == token.ADD && bo.X == v.Call.Args[1] {
+						if k, isC := constInt(bo.Y); isC && k == 1 {
+							okDel = true
+						}
+					}
+				}
+				if b != "append" && !okDel {
+					bad = "the list is replaced by the result of " + n + ", which may drop more than one registration"
+				}
+			default:
+				bad = fmt.Sprintf("the list is replaced by a %T", st.Val)
+			}
+			// at most one removal per call: no store to the list is reachable from this one
+			r := reach([]ssa.Instruction{st.Instr}, nil, nil, nil)
+			for _, st2 := range stores {
+				if r[st2.Instr] {
+					bad = "after removing one registration the function can remove another (no break after the first match)"
+				}
+			}
+		}
+		c.check(id+":freelist.(*shared).RemoveReadonlyTXID:exactly-one", fn, fn.Pos(), "the reader list is shortened by exactly one element per call (re-slice / append / slices.Delete(i,i+1), never continued after the first removal)", bad == "", bad)
+	})
+}
+
+// ---------------------------------------------------------------------------------------------
+// C19.R7  freelist-page-read-verbatim
+//
+// "Freed twice" is detected by Tx.check on the in-memory list (Copyall). The detector is only as good as the list:
+// Read must hand the page's ids to Init as they are (copied and sorted) — a Read that de-duplicates or filters them
+// hides exactly the corruption the check is documented to find (seed C19d).
+func ruleFreelistReadVerbatim(c *Ctx, id string) {
+	c.rule(id, "freelist-page-read-verbatim", 1, func() {
+		rd := c.fn("freelist.(*shared).Read")
+		bad := ""
+		n := 0
+		for _, ci := range callsIn(rd, "freelist.Interface.Init") {
+			arg := ci.Common().Args[0]
+			n++
+			// allowed producers of the list: the page's ids, a make+copy / Clone of them, an empty literal; sorting is in place
+			seen := map[ssa.Value]bool{}
+			var walk func(v ssa.Value, d int)
+			walk = func(v ssa.Value, d int) {
+				if v == nil || seen[v] || d > 6 || bad != "" {
+					return
+				}
+				seen[v] = true
+				switch x := v.(type) {
+				case *ssa.Phi:
+					for _, e := range x.Edges {
+						walk(e, d+1)
+					}
+				case *ssa.ChangeType:
+					walk(x.X, d+1)
+				case *ssa.Convert:
+					walk(x.X, d+1)
+				case *ssa.MakeSlice, *ssa.Const, *ssa.Slice, *ssa.Alloc:
+				case *ssa.UnOp:
+					walk(resolveCell(x), d+1)
+				case *ssa.Call:
+					name := calleeOf(x).Name()
+					st := calleeOf(x).Static
+					isSlicesClone := st != nil && fnPkg(st) != nil && fnPkg(st).Path() == "slices" && strings.HasPrefix(st.Name(), "Clone[")
+					switch {
+					case name == "common.(*Page).FreelistPageIds", isSlicesClone, name == "slices.Clone":
+					case calleeOf(x).Builtin == "append" && len(x.Call.Args) == 2 && isNilConst(stripConv(x.Call.Args[0])):
+					default:
+						bad = "the ids handed to Init pass through " + name + ": the list is no longer the page's list (duplicates / entries may be dropped before the integrity check sees them)"
+					}
+				}
+			}
+			walk(arg, 0)
+		}
+		// no compaction of the list in Read at all
+		eachInstr(rd, func(in ssa.Instruction) {
+			if call, ok := in.(*ssa.Call); ok {
+				if st := calleeOf(call).Static; st != nil && fnPkg(st) != nil && fnPkg(st).Path() == "slices" && (strings.HasPrefix(st.Name(), "Compact") || strings.HasPrefix(st.Name(), "DeleteFunc")) {
+					bad = "Read filters the id list with slices." + st.Name()
+				}
+			}
+		})
+		c.check(id+":freelist.(*shared).Read:verbatim", rd, rd.Pos(), "Read hands the freelist page's ids to Init unfiltered (copied and sorted only): a page listed twice stays listed twice for Tx.Check to report", bad == "" && n >= 1, bad)
+	})
+}
